@@ -204,3 +204,8 @@ class Replay:
     def benign(self, kernel, acts):
         # replays follow the recorded list through the calm phase as well
         return self.pick(kernel, acts)
+
+    def forced(self, label):
+        """the kernel took a step without asking (deadline-ordered timers): consume its recorded label"""
+        if self.pos < len(self.labels) and self.labels[self.pos] == label:
+            self.pos += 1
